@@ -270,3 +270,11 @@ func C11_Score() {
 	_, err := Rating(s)
 	verif.Assert(err == nil, "Rating accepts Score")
 }
+
+// C12_Score: one severity step up in one effective metric never lowers Score
+// (all 15 scoring metrics; the digits are severity ranks, 0 = least severe).
+func C12_Score() {
+	c := havocReachable()
+	x := effsOf(c)
+	verif.Monotone("v4_score", c.Score(), 3-x.av, 2-x.pr, 2-x.ui, 1-x.ac, 1-x.at, 2-x.vc, 2-x.vi, 2-x.va, 2-x.sc, 3-x.si, 3-x.sa, 2-x.cr, 2-x.ir, 2-x.ar, 2-x.e)
+}
